@@ -46,10 +46,16 @@ Stringers == {[id |-> p \o t, cls |-> "str", s |-> Unescape(t)] : p \in {"string
 Numbers == {[id |-> "number:" \o ToString(q), cls |-> "num", q |-> q] : q \in {0, 64, 96, 0 - 64, 640}}
 Booleans == {[id |-> "boolean:t", cls |-> "bool", b |-> TRUE], [id |-> "boolean:f", cls |-> "bool", b |-> FALSE]}
 Decimals == {[id |-> "decimal:" \o ToString(q), cls |-> "num", q |-> q] : q \in {0, 64, 96, 192, 0 - 96, 16, 6400}}
-Plain == Nums \cup Bigs \cup Strs \cup Bools \cup Fallbacks \cup Stringers \cup Numbers \cup Booleans \cup Decimals
+(* a value whose type implements Stringer, Number and Boolean at once, with answers that do not follow from one another:
+   each coercion asks its own interface *)
+Alls == {[id |-> "all:" \o s \o ":" \o ToString(q) \o ":" \o b, cls |-> "all", s |-> s, q |-> q, b |-> (b = "t")]
+           : s \in {"abc", "0", ""}, q \in {0, 96, 0 - 64}, b \in {"t", "f"}}
+Plain == Nums \cup Bigs \cup Strs \cup Bools \cup Fallbacks \cup Stringers \cup Numbers \cup Booleans \cup Decimals \cup Alls
 SafeInner == {d \in Plain : d.id \in {"num:int8:192", "num:float64:96", "str:abc", "str:1.5", "str:", "bool:t", "bool:f", "nil",
                                      "stringer:abc", "number:96", "boolean:t", "decimal:96", "nilptr:vstringer", "slice:int:1,2",
-                                     "num:uint16:4194240", "num:float32:-160", "nilptr:pstrict", "nilptr:pnumber", "nilptr:ptolerant"}}
+                                     "num:uint16:4194240", "num:float32:-160", "nilptr:pstrict", "nilptr:pnumber", "nilptr:ptolerant",
+                                     "decimal:0", "decimal:-96", "number:0", "number:-64", "boolean:f", "stringer:", "stringer:1.5",
+                                     "all:abc:0:f", "all:0:96:t", "all::-64:t", "all:abc:96:f"}}
 Safes == {[d EXCEPT !.id = "safe:" \o ToString(n) \o ":" \o d.id] : d \in SafeInner, n \in 1..3}
 (* wrappers that are not stick's own safeValue type (an application's implementation of the SafeValue interface), nested *)
 CSafes == {[d EXCEPT !.id = "csafe:" \o ToString(n) \o ":" \o d.id] : d \in SafeInner, n \in 1..3}
@@ -66,6 +72,7 @@ Expected(d) ==
                         [str |-> Str(S2B(d.s)), num |-> (IF IsOOM(n) THEN AnyV ELSE n),
                          bool |-> IF d.s = "" THEN "f" ELSE IF d.s = "0" THEN "any" ELSE "t"]
     [] d.cls = "bool" -> [str |-> Str(IF d.b THEN <<49>> ELSE <<>>), num |-> IntV(IF d.b THEN 1 ELSE 0), bool |-> IF d.b THEN "t" ELSE "f"]
+    [] d.cls = "all" -> [str |-> Str(S2B(d.s)), num |-> Num(d.q), bool |-> IF d.b THEN "t" ELSE "f"]
     [] OTHER -> [str |-> Str(<<>>), num |-> IntV(0), bool |-> "f"]
 
 Cases == SetToSeq(Catalogue)
